@@ -193,6 +193,8 @@ class ConvexSpheropolygon(Shape2D):
         For more general information about this calculation, see
         `Shape.distance_to_surface`.
         """
+        # Bring the angles into [0, 2 pi), the range of the arc intervals used below.
+        angles = np.mod(angles, 2 * np.pi)
         num_verts = self.num_vertices
         verts = self._polygon.vertices[:, :2] - self._polygon.centroid[:2]
 
